@@ -307,7 +307,7 @@ func render(c *sgCase, rnd *rand.Rand) (text, name string) {
 			extra++
 		}
 		b.WriteString(" " + s)
-		if cls == "kw" || cls == "ob" {
+		if cls == "kw" {
 			n.WriteString(" " + s)
 		} else {
 			n.WriteString(" <" + cls + ">")
